@@ -1,16 +1,16 @@
 #!/usr/bin/env python3
 """Regenerates the seed tables of DESIGN.md §9 (between the markers) from /verif/seeded/*/meta.json."""
 import json, glob, os, re
-rows1, rows2, rows3, rows4, rows5 = [], [], [], [], []
+rows1, rows2, rows3, rows4, rows5, rows6 = [], [], [], [], [], []
 for d in sorted(glob.glob('/verif/seeded/*')):
     m = json.load(open(d + '/meta.json'))
     n = os.path.basename(d)
     det = m.get('detection') == 'DETECTED'
     by = ('`' + (m.get('detected_by') or '') + '`') if det else '**missed**'
-    if '-r2m' in n or '-r3m' in n or '-r4m' in n or '-r5m' in n:
+    if '-r2m' in n or '-r3m' in n or '-r4m' in n or '-r5m' in n or '-r6m' in n:
         fs = m.get('first_sweep', '')
         first = 'detected' if fs.startswith('DETECTED') else 'missed'
-        (rows2 if '-r2m' in n else rows3 if '-r3m' in n else rows4 if '-r4m' in n else rows5).append(f"| {n} | {m.get('what','')} | {first} | {by} | {m.get('history','')} |")
+        (rows2 if '-r2m' in n else rows3 if '-r3m' in n else rows4 if '-r4m' in n else rows5 if '-r5m' in n else rows6).append(f"| {n} | {m.get('what','')} | {first} | {by} | {m.get('history','')} |")
     else:
         rows1.append(f"| {n} | {m.get('what','')} | {by} | {m.get('history','')} |")
 def count(rows, col):
@@ -28,6 +28,9 @@ n4first = sum(1 for r in rows4 if r.split('|')[3].strip() == 'detected')
 t5 = "| seed | what the change does | first sweep | caught by (now) | history |\n|---|---|---|---|---|\n" + "\n".join(rows5)
 n5d = count(rows5, 4)
 n5first = sum(1 for r in rows5 if r.split('|')[3].strip() == 'detected')
+t6 = "| seed | what the change does | first sweep | caught by (now) | history |\n|---|---|---|---|---|\n" + "\n".join(rows6)
+n6d = count(rows6, 4)
+n6first = sum(1 for r in rows6 if r.split('|')[3].strip() == 'detected')
 s = open('/verif/DESIGN.md').read()
 a = s.index('<!-- SEEDS:BEGIN -->'); b = s.index('<!-- SEEDS:END -->')
 body = f"""<!-- SEEDS:BEGIN -->
@@ -70,7 +73,14 @@ another property is recorded as missed.
 
 {t5}
 
+### Round 6 ({len(rows6)} confirmed seeds; {n6first} detected by the first sweep, {n6d} detected now, {len(rows6)-n6d} missed)
+
+Round 6 was a half round (C07, C09, C11, C12, C16, C20 - the properties that had received most of the late rules),
+run in the last hours to measure those rules; same instructions as round 5. Its defect reports are findings 73-78.
+
+{t6}
+
 """
 s = s[:a] + body + s[b:]
 open('/verif/DESIGN.md', 'w').write(s)
-print(len(rows1), n1d, len(rows2), n2first, n2d, len(rows3), n3first, n3d, len(rows4), n4first, n4d, len(rows5), n5first, n5d)
+print(len(rows1), n1d, len(rows2), n2first, n2d, len(rows3), n3first, n3d, len(rows4), n4first, n4d, len(rows5), n5first, n5d, len(rows6), n6first, n6d)
